@@ -292,8 +292,12 @@ def _save_link(
 
     from .utils import _get_mtime_from_changes
 
-    mtime = _get_mtime_from_changes(path, fs, diff, updated_mtimes)
-    ino = inode(path)
+    try:
+        mtime = _get_mtime_from_changes(path, fs, diff, updated_mtimes)
+        ino = inode(path)
+    except FileNotFoundError:
+        # NOTE: nothing is left to record (e.g. checkout without a target)
+        return None
     return state.set_link(path, ino, mtime)
 
 
